@@ -99,11 +99,32 @@ def structural(find_def):
         out.append((name, None, "the marker set of the typed-default classifier was not found as a frozenset constant in the test of `ast.AST() if ... else literal_eval(...)`"))
         return out
     out.extend(_adhoc_table_obligation())
+    out.extend(_signed_int_obligation(fn))
     clash = sorted(set().union(*[set("".join(s_)) for s_ in sets]) & NUMBER_REPR_CHARS)
     out.append((name, not clash,
                 "marker characters %s never occur in repr() of an int / float / complex / bool" % sorted(set().union(*sets)) if not clash
                 else "marker character(s) %r occur in repr() of numbers (e.g. repr(1e16) == '1e+16', repr(1+2j) == '(1+2j)'): such a default is code-quoted on the way back" % clash))
     return out
+
+
+# Third lemma: repr() of a negative int is '-' followed by decimal digits.  The branch of the untyped-default classifier that
+# answers int(default) must accept that text -- its test mentions the digits after a one-character sign, not only
+# default.isdecimal() (which is False for '-3': the default then falls through to float()).
+def _signed_int_obligation(fn):
+    import ast
+
+    name = "_parse_out_default_and_doc/int-branch-accepts-a-signed-decimal"
+    tests = []
+    for n in ast.walk(fn):
+        if isinstance(n, ast.If):
+            for st_ in n.body:
+                if isinstance(st_, ast.Assign) and ast.unparse(st_.value) == "int(default)" and ast.unparse(st_.targets[0]) == "default":
+                    tests.append(ast.unparse(n.test))
+    if not tests:
+        return [(name, None, "no `default = int(default)` branch found")]
+    ok = any("default.isdecimal()" in t and ("default[1:].isdecimal()" in t or "lstrip('-" in t or "lstrip('+-" in t or "removeprefix('-')" in t) for t in tests)
+    return [(name, ok, "the int branch is taken for decimal digits with an optional one-character sign: %s" % tests[0][:160] if ok
+             else "the int branch is guarded by %s: the repr of a negative int does not pass it" % tests)]
 
 
 # Second lemma of the same kind: the parser sniffs a type from the words of a description (table adhoc_type_to_type of
